@@ -13,6 +13,25 @@ pub assume_specification<'a, T: Copy> [std::option::Option::<&'a T>::copied] (o:
 pub assume_specification<T> [std::option::Option::<T>::or] (a: Option<T>, b: Option<T>) -> (r: Option<T>)
     ensures r == (if a is Some { a } else { b });
 
+/// whether a slice contains a value equal (under the element type's PartialEq) to x; fixed per element type below
+pub uninterp spec fn slice_contains_spec<T>(s: Seq<T>, x: T) -> bool;
+
+// TRUSTED[slice-contains]: names the result of `[T]::contains(x)` (true iff some element == x, std doc).
+pub assume_specification<T: PartialEq> [<[T]>::contains] (s: &[T], x: &T) -> (r: bool)
+    ensures r == slice_contains_spec::<T>(s@, *x);
+
+// TRUSTED[slice-contains-str]: for `&str` elements, equality is equality of the texts.
+pub broadcast axiom fn axiom_slice_contains_str<'a>(s: Seq<&'a str>, x: &'a str)
+    ensures #[trigger] slice_contains_spec::<&'a str>(s, x) == exists|i: int| 0 <= i < s.len() && (#[trigger] s[i])@ == x@;
+
+/// the str value with a given text
+pub uninterp spec fn str_of(v: Seq<char>) -> &'static str;
+// TRUSTED[str-view-injective]: a str value is determined by its text (spec-level strs are immutable texts); needed because
+// `match s { CONST => … }` on strings is encoded as equality of str values. Stated through a canonical representative so
+// that the axiom has a single-term trigger.
+pub broadcast axiom fn axiom_str_view_injective(a: &str)
+    ensures str_of(#[trigger] a@) == a;
+
 /// the borrow `Deref::deref` yields (uninterpreted in general; fixed for String below)
 pub uninterp spec fn deref_target<T: std::ops::Deref>(t: &T) -> &<T as std::ops::Deref>::Target;
 
